@@ -643,6 +643,9 @@ func TestFrames(t *testing.T) {
 		}
 		if thorough {
 			seqs = append(seqs, []string{"m5", "one", "m5", "two"}, []string{"m16", "two"}, []string{"two", "m16"})
+		} else {
+			// the quick tier too crosses the size above which a header channel stops allocating up front, in both directions
+			seqs = append(seqs, []string{"two", "m16"}, []string{"b70000", "m16", "one"}, []string{"m16", "b4097"})
 		}
 		for i, sq := range seqs {
 			if i%nshard != shard {
